@@ -21,7 +21,7 @@ from ..utils import defaultdict2
 from .config import DiffConfig
 from .generic import (
     diff, diff_sequence_multilevel, compare_strings_approximate,
-    diff_string_lines,
+    diff_string_lines, compare_strict,
 )
 
 __all__ = ["diff_notebooks"]
@@ -426,7 +426,7 @@ def add_mime_diff(key, avalue, bvalue, diffbuilder):
         dd = diff(avalue, bvalue)
         if dd:
             diffbuilder.patch(key, dd)
-    elif avalue != bvalue:
+    elif not compare_strict(avalue, bvalue):
         diffbuilder.replace(key, bvalue)
 
 
@@ -520,8 +520,8 @@ def diff_ignore_keys(inner_differ, ignore_keys):
 
 # Sequence diffs should be applied with multilevel
 # algorithm for paths with more than one predicate,
-# and using operator.__eq__ if no match in there.
-notebook_predicates = defaultdict2(lambda: [operator.__eq__], {
+# and using strict equality if no match in there.
+notebook_predicates = defaultdict2(lambda: [compare_strict], {
     # Predicates to compare cells in order of low-to-high precedence
     "/cells": [
         compare_cell_approximate,
